@@ -475,4 +475,7 @@ class C42(Check):
             if any(156 + 14 + x == avail for x in ninfo):
                 return "thread-entry-exactly-full"
             return "stream-info-too-large"
+        nd = len(dict_packing(pages * PAGE - HDR, keys))
+        if nd >= 3:
+            return "readback-dict%dbuf" % min(nd, 4)
         return "readback-p%d-s%d" % (pages, ns)
